@@ -50,4 +50,3 @@ func maxInt(a, b int) int {
 	}
 	return b
 }
-
